@@ -128,7 +128,7 @@ func pickScenario(rng *rand.Rand, focus string) scenario {
 			sc.Feat["cycle"] = true
 		}
 		if rng.Intn(3) == 0 { // start after a rolled-out and deleted generation: the app holds reserved IPs
-			sc.Feat["rollout"] = true
+			sc.Feat["rollout"], sc.Feat["cycle"], sc.Feat["preempt"] = true, true, true
 		}
 	case "c03": // release policies: all kinds and policies, scaling and deleting apps, lost events
 		sc.Cfgs, sc.NodeSub = cfgOne, nodesOneSubnet
